@@ -4,14 +4,17 @@
      REJECT <family> <seed> <idx> item=<i> line=<lineno> <what the model expected>
      FAULT <family> <seed> <idx> <text>         (harness-side monitors)
    Every scenario, racing ones included (which are not replayed: no windows, no release lines), is also judged
-   by the monitors of coq/srv/SrvMonitors.v and coq/srv/SrvMonitors2.v (proved sound for every run of the model) on
-   its environment lines and its observation lines (mon_concurrency also takes K from the cfg line):
+   by the monitors of coq/srv/SrvMonitors.v, coq/srv/SrvMonitors2.v and coq/srv/SrvMonitors3.v (proved sound for every
+   run of the model) on its environment lines and its observation lines (mon_concurrency also takes K from the cfg
+   line; mon_cancel_cause is not evaluated on scenarios with an `env basectx` line: the base context of the request
+   contexts ends there, a cancellation cause the model does not have):
      REJECT <family> <seed> <idx> monitor <name>                                    *)
 open Common
 module M = Model.SrvModel
 module A = Model.Accept
 module Mon = Model.SrvMonitors
 module Mon2 = Model.SrvMonitors2
+module Mon3 = Model.SrvMonitors3
 module Msg = Model.Msg
 
 let hx = bytes_of_hexfield
@@ -166,6 +169,7 @@ let () =
   let faults = ref [] in
   let envs = ref [] in       (* environment labels of the scenario, reversed *)
   let allobs = ref [] in     (* observations of the scenario, reversed *)
+  let basectx = ref false in (* the scenario has an `env basectx` line: request contexts end for a reason outside the model *)
   let flush_cur () =
     (match !cur with
      | Some (f, ln) ->
@@ -187,10 +191,11 @@ let () =
       | ["cfg"; k; push; builtin; unblock; ms] ->
         cfg := Some (M.init (nat_of_int (int_of_string k)) (b01 push) (b01 builtin)
                        (List.map hx (if ms = "" then [] else split_on ',' ms)) (b01 unblock));
-        items := []; faults := []; cur := None; obs := []; envs := []; allobs := []
+        items := []; faults := []; cur := None; obs := []; envs := []; allobs := []; basectx := false
       | "scenario" :: fam :: seed :: idx :: rest ->
         hdr := String.concat " " [fam; seed; idx];
         policy := (match rest with p :: _ -> p | [] -> "")
+      | "env" :: "basectx" :: _ -> basectx := true; flush_cur (); cur := Some (f, ln)
       | "env" :: _ | "rel" :: _ -> flush_cur (); cur := Some (f, ln)
       | "o" :: rest -> let o = parse_obs rest in obs := o :: !obs; allobs := o :: !allobs
       | ["parked"; p] ->
@@ -228,7 +233,13 @@ let () =
             (* C09: pushed request ids pairwise distinct; final returns of a push at most its calls *)
             ("mon_push_ids", true, Mon2.mon_push_ids);
             (* C07: the duplicate-id error only for an id received at least twice *)
-            ("mon_duplicate", true, Mon2.mon_duplicate) ] in
+            ("mon_duplicate", true, Mon2.mon_duplicate);
+            (* C07: a handler context reported as cancelled has a cause among the environment lines (a stop cause,
+               or a CancelRequest naming the id of a fed member with the handler's params); skipped when the
+               scenario ends the base context of the request contexts (a cause the model lacks) *)
+            ("mon_cancel_cause", not !basectx, Mon3.mon_cancel_cause);
+            (* C08: every WaitStatus return has its cause among the environment lines; returns <= calls *)
+            ("mon_wait_status", true, Mon3.mon_wait_status) ] in
         let nmon = ref 0 in
         let mon_rejected = ref false in
         List.iter (fun (name, hyp, m) ->
